@@ -162,6 +162,18 @@ def h_readcode(n0: int, n1: int, n2: int, n3: int, numtype='int32', bo='little',
         if tuple(sorted(offered_now)) != tuple(a.readcodelanguages):
             raise Violation('readcodelanguages differs from the set of languages for which code is offered',
                             got=list(a.readcodelanguages), want=sorted(offered_now))
+    if set(langs) == set(LANGS):
+        # a second array of the SAME numeric type and another dimensionality in the same process:
+        # what is offered depends on the dimensionality too
+        rank2 = 1 if rank > 1 else 2
+        b = mk_handle(w, '/w/dat/other', [n0, n1][:rank2], numtype, bo)
+        want2 = tuple(sorted(l for l in LANGS if table_says(l, numtype, rank2)))
+        if tuple(b.readcodelanguages) != want2:
+            raise Violation('readcodelanguages of a second array (same type, other dimensionality) is not the set '
+                            'the compatibility table offers', got=list(b.readcodelanguages), want=list(want2))
+        for l in LANGS:
+            if (b.readcode(l) is not None) != (l in want2):
+                raise Violation(f'{l}: offered/withheld wrongly for the second array')
     try:
         a.readcode('perl')
         raise Violation('unsupported language accepted')
@@ -315,6 +327,13 @@ def replay_readcode(cex, d):
             offered = [l for l in LANGS if a.readcode(l) is not None]
             if tuple(sorted(offered)) != tuple(a.readcodelanguages):
                 probs.append('readcodelanguages differs')
+            rank2 = 1 if rank > 1 else 2
+            ref2 = rp.values(np_, 3, (2,) if rank2 == 2 else (), numtype, bo)
+            b = darr.asarray(tmp + '/other', ref2)
+            want2 = tuple(sorted(l for l in LANGS if table_says(l, numtype, rank2)))
+            if tuple(b.readcodelanguages) != want2:
+                probs.append(f'readcodelanguages of a second array of rank {rank2} (same type, after querying a rank {rank} '
+                             f'array in the same process) is {b.readcodelanguages}, table says {want2}')
     if probs:
         return {'reproduced': True, 'detail': '; '.join(probs[:3])[:1800]}
     return {'reproduced': False, 'detail': 'real readcode() output is well-formed and denotes the array'}
